@@ -93,6 +93,9 @@ func roundTrip(s smbgen.Struct, rels []smbgen.Relation, mode smbgen.Mode, iter i
 	for _, p := range diffs {
 		r.Violation(s.Name+":field:"+p, fmt.Sprintf("field %s differs after Unmarshal(Marshal(S)): sent %v", p, describe(reflect.ValueOf(c).Elem(), p)), cs(map[string]any{"wire": mon.FullHex(b1), "decoded": fmt.Sprintf("%+v", reflect.ValueOf(d).Elem().Interface())}))
 	}
+	if len(diffs) == 0 && iter%4 == 0 {
+		decodeEditEncode(s, rels, d, iter)
+	}
 	b2, err, pan, pv, st := marshal(d)
 	r.Eval(1)
 	switch {
@@ -108,6 +111,70 @@ func roundTrip(s smbgen.Struct, rels []smbgen.Relation, mode smbgen.Mode, iter i
 	}
 	if iter == 0 && mode == smbgen.ModeDistinct && (s.Name[0] == 'R' || s.Name[0] == 'N') {
 		r.Sample(map[string]any{"struct": s.Name, "mode": "distinct", "wire": mon.Hex(b1)})
+	}
+}
+
+// decodeEditEncode: a decoded structure whose byte-slice fields may still point into the
+// receive buffer is edited in one field (a buffer of another length) and encoded; a fresh
+// structure holding the same logical field values must encode to the same bytes.
+func decodeEditEncode(s smbgen.Struct, rels []smbgen.Relation, d ci.CommandInterface, iter int) {
+	dv := reflect.ValueOf(d).Elem()
+	var byteFields []int
+	for i := 0; i < s.Type.NumField(); i++ {
+		sf := s.Type.Field(i)
+		if sf.IsExported() && sf.Type.Kind() == reflect.Slice && sf.Type.Elem().Kind() == reflect.Uint8 {
+			byteFields = append(byteFields, i)
+		}
+	}
+	if len(byteFields) == 0 {
+		return
+	}
+	pads := map[string]bool{}
+	for _, pf := range smbgen.PadFields(rels) {
+		pads[pf] = true
+	}
+	for _, fi := range byteFields {
+		name := s.Type.Field(fi).Name
+		if pads[name] {
+			continue
+		}
+		// work on a private re-decode so that edits do not accumulate
+		wire, err, pan, _, _ := marshal(d)
+		if pan || err != nil {
+			return
+		}
+		e := s.New()
+		buf := append(make([]byte, 0, len(wire)+64), wire...) // receive buffer with spare capacity
+		var uerr error
+		if p, _, _ := mon.Guard(func() { _, uerr = e.Unmarshal(buf) }); p || uerr != nil {
+			return
+		}
+		ev := reflect.ValueOf(e).Elem()
+		old := ev.Field(fi).Len()
+		n := old + 3 + iter%5
+		if iter%2 == 1 && old > 2 {
+			n = old / 2
+		}
+		nb := make([]byte, n)
+		for k := range nb {
+			nb[k] = byte(0xC0 + k%32)
+		}
+		fresh := s.New()
+		smbgen.CopyFields(fresh, e)
+		for _, x := range []ci.CommandInterface{e, fresh} {
+			xv := reflect.ValueOf(x).Elem()
+			xv.Field(fi).SetBytes(append([]byte{}, nb...))
+			smbgen.ApplyRelations(xv, rels)
+			smbgen.AlignPads(x, rels)
+		}
+		w1, err1, pan1, _, _ := marshal(e)
+		w2, err2, pan2, _, _ := marshal(fresh)
+		r.Eval(2)
+		if pan1 != pan2 || (err1 == nil) != (err2 == nil) || !bytes.Equal(w1, w2) {
+			r.Violation(s.Name+":decode-edit-encode:"+name, fmt.Sprintf("after decoding, replacing %s by a %d-byte buffer and encoding, the bytes differ from those of a fresh structure with the same field values (%d vs %d bytes; err %v / %v)", name, n, len(w1), len(w2), err1, err2),
+				map[string]any{"struct": s.Name, "field": name, "decoded_then_edited_wire": mon.FullHex(w1), "fresh_wire": mon.FullHex(w2), "original_wire": mon.FullHex(wire)})
+		}
+		_ = dv
 	}
 }
 
@@ -323,6 +390,9 @@ func main() {
 			maxLen := 40
 			if i%10 == 9 {
 				maxLen = 600
+			}
+			if i%50 == 49 {
+				maxLen = 9000 // buffers past 4 KiB and 8 KiB size classes
 			}
 			roundTrip(s, rels, smbgen.ModeRandom, i, maxLen)
 		}
